@@ -30,7 +30,7 @@ q = queue.Queue()
 for i in ids: q.put(i)
 
 def worker(k):
-    wt = f"/tmp/seeded_eval_wt{k}"
+    wt = f"/tmp/seeded_eval_{os.getpid()}_wt{k}"
     subprocess.run(["git", "-C", "/repo", "worktree", "remove", "--force", wt], capture_output=True)
     shutil.rmtree(wt, ignore_errors=True)
     subprocess.run(["git", "-C", "/repo", "worktree", "add", "-q", "--detach", wt, "HEAD"], check=True)
@@ -56,7 +56,7 @@ def worker(k):
                 props = [own] if own_only else claimed
                 procs = {}
                 for p in props:
-                    sd = f"/tmp/seeded_wt_scratch_{k}_{p}"
+                    sd = f"/tmp/seeded_wt_scratch_{os.getpid()}_{k}_{p}"
                     os.makedirs(sd, exist_ok=True)
                     shutil.copy("known_findings.json", sd + "/known_findings.json")
                     procs[p] = subprocess.Popen([binp, "check", p, "--tier", "quick", "--repo", wt, "--verif", sd], stdout=subprocess.PIPE, stderr=subprocess.STDOUT, text=True)
@@ -64,7 +64,7 @@ def worker(k):
                     o = pr.communicate()[0]
                     if pr.returncode != 0:
                         fired[p] = [l.strip() for l in o.splitlines() if l.startswith("  ") and not l.startswith("      ")][:4]
-                    shutil.rmtree(f"/tmp/seeded_wt_scratch_{k}_{p}", ignore_errors=True)
+                    shutil.rmtree(f"/tmp/seeded_wt_scratch_{os.getpid()}_{k}_{p}", ignore_errors=True)
             finally:
                 subprocess.run(["git", "-C", wt, "reset", "-q", "--hard", "HEAD"], check=True)
                 subprocess.run(["git", "-C", wt, "clean", "-fdq"], check=True)
